@@ -14,6 +14,11 @@ ALGOS = ["priority", "priority", "priority-pool"]
 
 
 def make(family, rng, tier):
+    if family == "many":
+        scn = sysgen.gen_many(rng, "priority", tier)
+        scn["oracles"] = ORACLES
+        scn["defer"] = ["C01.", "C02."]
+        return scn
     if family == "preempt":
         scn = sysgen.gen_preempt(rng, tier, offgrid=rng.random() < 0.5)
         scn["oracles"] = ORACLES
@@ -36,7 +41,7 @@ def make(family, rng, tier):
 
 def plan(tier):
     q = tier == "quick"
-    return [("sys", 4000 if q else 80000), ("preempt", 2500 if q else 50000)]
+    return [("sys", 4000 if q else 80000), ("preempt", 2500 if q else 50000), ("many", 6 if q else 100)]
 
 
 WANT_PROBES = ["priority_suspension", "retry_assigned", "retry_abandoned"]
